@@ -72,6 +72,7 @@ fn cmd_io(m: &HashMap<String, String>) -> i32 {
     let out = m.get("out").cloned().unwrap_or_else(|| "/dev/stdout".to_string());
     let replay_dir = m.get("replay-dir").cloned().unwrap_or_else(|| "/verif/replays".to_string());
     let property = m.get("property").cloned().unwrap_or_else(|| "C19".to_string());
+    let known: Vec<String> = m.get("known").map(|k| k.split(';').filter(|x| !x.is_empty()).map(|x| x.to_string()).collect()).unwrap_or_default();
     let t0 = Instant::now();
 
     let mut res = J::obj().set("engine", J::s("io")).set("seed", J::Int(seed as i64)).set("workers", J::u(workers));
@@ -84,7 +85,7 @@ fn cmd_io(m: &HashMap<String, String>) -> i32 {
         let ts = Instant::now();
         let (plans, dims) = io_gen::sweep(sweep_values);
         let n = plans.len();
-        let b = io_run::run_batch(n, workers, None, |i| plans[i].clone());
+        let b = io_run::run_batch(n, workers, None, &known, |i| plans[i].clone());
         let mut dj = J::obj();
         for (k, v) in &dims {
             dj.put(k, J::u(*v));
@@ -112,7 +113,7 @@ fn cmd_io(m: &HashMap<String, String>) -> i32 {
     // ---- seeded search
     let ts = Instant::now();
     let deadline = if secs > 0 { Some(Instant::now() + Duration::from_secs(secs)) } else { None };
-    let b = io_run::run_batch(runs, workers, deadline, |i| io_run::seeded_plan(seed, i));
+    let b = io_run::run_batch(runs, workers, deadline, &known, |i| io_run::seeded_plan(seed, i));
     let done = b.digests.len();
     let mut samples = vec![];
     if !digest_only {
